@@ -151,7 +151,8 @@ def run(spec):
             # only the signature of THIS finding (or the alternative one given for this directed run) counts here
             own = [f['signature'] for f in kf if f['id'] == fid and f['signature']]
             sig_r = re.sub(r'\d+', 'N', mon_msg(r))
-            if any(sg in sig_r[:160] for sg in own) or (alt and alt in sig_r):
+            # (the monitor messages of one run come in no fixed order: every ' | ' part is looked at, 160 characters each)
+            if any(sg in part[:160] for sg in own for part in sig_r.split(' | ')) or (alt and alt in sig_r):
                 found[fid] = found[fid] or mon_msg(r)
             else:
                 r['argv'] = a
